@@ -37,6 +37,10 @@ CHECKS = {
           'sched', 'DESIGN.md section 4 C04',
           'Orderly stop (carbon\'s own shutdown trigger + running=False) placed at generated positions of the receiver program and generated interleavings with the writer loop, across strategies, lag and rate-limit settings; after writeForever() returns the cache must be empty and every value written once or accounted for. One genuine defect found and fixed.',
           'Thread-pool join modelled by running the writer thread to completion; virtual clock.'),
+  'C20': ('exploration', 'model-based property-based testing on a virtual clock (window inequality over grant times + independent reference bucket), plus the scheduled writer harness',
+          'sched', 'DESIGN.md section 4 C20',
+          'Generated TokenBucket histories (drain, bursts, blocking drain, peek, clock steps 0..1e6, limit changes) and generated writer runs with both buckets active; oracle: every window between two grants/backend calls obeys rate*w + 2*burst per limit epoch, blocking sleeps bounded by deficit/rate of an independent continuously refilled bucket, no refusal while that bucket has tokens.',
+          'Virtual clock replaces carbon.util.time/sleep; reference-bucket judgments are suspended after a limit decrease (see DESIGN.md corrections).'),
 }
 
 PENDING_REASON = 'check not built yet in this session (design in DESIGN.md section 4); will be claimed once its check is quiet on the unchanged tree and catches its mutants'
